@@ -5,10 +5,9 @@ CONSTANTS
   Buffers = {0, 1, 2}
   QCaps = {1, 2}
   MaxPanics = 1
-  LateResult = FALSE
+  LateResult = TRUE
   FifoSend = FALSE
   AtomicLast = TRUE
 VIEW View
 INVARIANTS WaitMeansDone NoPanic ClosedAtMostOnce NoDuplicates CloseIsLast Complete
-PROPERTY Termination
 CHECK_DEADLOCK TRUE
